@@ -8,11 +8,20 @@ Registers t0..t3 hold transformed parameters.  The model runs at `Float`
 (bit-exact tie); the verdicts are the Float shadows of the theorems of
 lean/BppProofs/Props/C11.lean evaluated on the *implementation's* answers:
 round trip (`*_roundtrip`), `back_in_domain`, monotonicity (`strict_mono`) and
-finite differences against `d1`, `d2` (`d1_is_derivative`, `d2_is_derivative`); and of
-lean/BppProofs/Props/C11Wrapper.lean for the wrapper ops (`w.new`, `w.newsub` = second constructor,
-`w.set`, `w.touch` = `f()` on current values, `w.d1`, `w.d2`, `w.fd`, `w.fdx`):
-`wrap_preserves_values`, `wrap_nudge`, `set_never_raises`, `set_sync`, `all_histories_accepted`
-(`wrap_near`), `wrapper_back_in_domain`, `chain_rule_1/2/2_cross`.
+finite differences against `d1`, `d2` (`d1_is_derivative`, `d2_is_derivative`), `clone_carries`
+(`t.clone`); and of lean/BppProofs/Props/C11Wrapper.lean / C11Copy.lean for the wrapper ops.
+
+Since round 3 the wrappers are *objects* (`BppModel/ReparamObj.lean`): function registers f0 f1,
+wrapper registers w0..w3 of the three classes, a current register.  `w.new` / `w.newsub` (drop
+everything, one function, one class-2 wrapper), `f.new`, `w.mk` (either constructor, any class, any
+sub-list), `w.use`, `w.clone` / `w.copy` / `w.assign` (`copy_carries`, `assign_carries`:
+`copyVerdict`), `w.names` (`every_wrapper_aligned`), `w.set`, `w.touch` = `f()` on current values
+(`wrap_f_eq`, `back_in_domain`, `wrap_sync`, `wrap_near`, `wrap_untouched`, `set_never_raises`:
+`setVerdict` on the slot views `Wr.view?` before and after, following `interleaved_eval`), `w.get`
+(`wrap_f_eq`, `get_is_pure`, shared function), `w.pv` / `w.all` / `w.match` / `w.pvs` / `w.fire`
+(`inherited_private` = `inherited_setters_stay_private`), `w.en` (`enable_delegates`), `w.d1`, `w.d2`
+(`derivative_defined`), `w.fd`, `w.fd1`, `w.fdx` (`chain_rule_1/2/2_cross`), `f.set` (the owner moves
+the function); `wrap_preserves_values`, `wrap_nudge` at every construction.
 -/
 namespace Bpp.Drive.C11
 open Bpp Bpp.Proto Bpp.Transform Bpp.Reparam Bpp.ReparamObj
